@@ -8,7 +8,7 @@
 set -u
 id="$1"; crate="$2"; shift 2
 src="/tmp/adv_${id}_out"; out="/verif/seeded/$id"; wt="/tmp/cf_$id"
-export CARGO_TARGET_DIR=/tmp/tgt_confirm CARGO_NET_OFFLINE=true
+export CARGO_TARGET_DIR="${CONFIRM_TARGET:-/tmp/tgt_confirm}" CARGO_NET_OFFLINE=true
 mkdir -p "$out/demo"; cp "$src/patch.diff" "$out/patch.diff"; cp -r "$src/demo/." "$out/demo/"; cp "$src/meta.json" "$out/adversary_meta.json" 2>/dev/null
 log="$out/confirm.log"; : > "$log"
 git -C /repo worktree remove --force "$wt" 2>/dev/null; git -C /repo worktree add --detach "$wt" HEAD >>"$log" 2>&1
@@ -33,7 +33,7 @@ fi
 cd /verif
 checks=""
 for cid in "$@"; do
-  r="$(CARGO_TARGET_DIR=/tmp/tgt_seeded /verif/tools/seeded_check.sh "$out/patch.diff" "$cid" 2>&1)"
+  r="$(CARGO_TARGET_DIR="${CONFIRM_SEEDED_TARGET:-/tmp/tgt_seeded}" /verif/tools/seeded_check.sh "$out/patch.diff" "$cid" 2>&1)"
   echo "$r" >> "$log"
   checks="$checks$(echo "$r" | grep -E "^$cid exit=" ) $(echo "$r" | grep -E '^  key=' | sed 's/ occurrences.*//' | tr '\n' ' ');"
 done
